@@ -25,9 +25,9 @@ type result struct {
 func execCase(bin string, c *Case) *result {
 	r := &result{c: c}
 	run := func(ops []Op, times []int64) (Snapshot, []Step, error) {
-		s0, st, err := Execute(bin, c.Proj, c.Init, c.Dirs, ops, times)
+		s0, st, err := Execute(bin, c.Proj, c.FileSilent, c.Init, c.Dirs, ops, times)
 		if errors.Is(err, errInconclusive) {
-			s0, st, err = Execute(bin, c.Proj, c.Init, c.Dirs, ops, times)
+			s0, st, err = Execute(bin, c.Proj, c.FileSilent, c.Init, c.Dirs, ops, times)
 		}
 		return s0, st, err
 	}
@@ -126,7 +126,7 @@ func opCoq(o Op) string {
 }
 
 var resCoq = map[string]string{"file": "RFile", "notask": "RNoTask", "skipped": "RSkipped", "ok": "ROk", "failed": "RFailed",
-	"declined": "RDeclined", "killed": "RKilled", "dry": "RDry", "status-true": "(RStatus true)", "status-false": "(RStatus false)",
+	"declined": "RDeclined", "killed": "RKilled", "dry": "RDry", "dryq": "RDryQ", "status-true": "(RStatus true)", "status-false": "(RStatus false)",
 	"query": "RQuery", "weird": "RNoTask"}
 
 func stepsCoq(steps []Step) string {
